@@ -49,6 +49,8 @@ func solverArgs(kind string, timeoutMS int) (string, []string) {
 		return "z3-new", []string{"-in", fmt.Sprintf("-t:%d", timeoutMS)}
 	case "cvc5":
 		return "cvc5", []string{"--incremental", "--lang=smt2", fmt.Sprintf("--tlimit-per=%d", timeoutMS), "--produce-models"}
+	case "cvc5-bitwise":
+		return "cvc5", []string{"--incremental", "--lang=smt2", fmt.Sprintf("--tlimit-per=%d", timeoutMS), "--produce-models", "--solve-bv-as-int=bitwise"}
 	case "cvc5-int":
 		// bit-vector arithmetic solved over the integers (keeps the mod-2^k semantics): decides the
 		// interval/offset arithmetic kernels that bit-blasting does not finish
